@@ -126,9 +126,9 @@ impl<'a, N: Normalizer> Html5Serializer<'a, N> {
     ) -> Result<(), Error> {
         let data = self.render_output(node, &output)?;
         if data.space {
-            w.write_all(b" ").unwrap();
+            w.write_all(b" ")?;
         }
-        w.write_all(data.text.as_bytes()).unwrap();
+        w.write_all(data.text.as_bytes())?;
         Ok(())
     }
 
